@@ -1,2 +1,189 @@
-/-! placeholder driver (property C19 not built yet) -/
-def main : IO Unit := IO.println "bad-op"
+import LlgoVerif.Util
+import LlgoVerif.Model.PyGuard
+/-! Line-protocol driver for C19 (model: LlgoVerif/Model/PyGuard.lean). One request per line, one answer per line.
+
+* `guard PROG IMP PRE ORDER CALLS` — run the guard state machine.
+    PROG  = packages separated by `;`, each `imports|binds|initUses|uses|intrinsics|loads`
+            (imports: `-` or `1,2`; binds: `-` or module number; uses: `-` or `c0.1,v2.0,e3`; intrinsics: 0/1;
+             loads: `-` or `0.1,2.0` = the (module.name) pairs of llgoLoadPyModSyms in emission order)
+    IMP   = `*` (every module importable) or `-` or `0,2`;  PRE = `-` or `0,1` (sys.modules at start-up)
+    ORDER = `0,1,2` ; CALLS = `-` or `3:c0.1,4:e1`
+  answer: `ok EVENTS` (`I` Py_Initialize, `i<p>.<m>` guarded import, `x<p>.<m>` user import, `B<m>` module body,
+          `L<p>.<m>.<n>` symbol load, `C<p>.<m>.<n>` call, `V<p>.<m>.<n>` variable read) or `err …`
+* `order PROG MAIN` — order of the `init` bodies for llgo's guarded depth-first initialiser
+* `check PROG IMP ORDER CALLS` — the decidable hypotheses of `import_once_before_use`: `1`/`0`
+* `call NPARAMS VARIADIC NARGS` — which C call `pyCall` emits for arguments 0…NARGS-1 and what the callee receives
+* `seq N` — slots of `py.Tuple`/`py.List` built from arguments 0…N-1
+* `val TOKENS…` — canonical dump of the Python object a Go value becomes
+    value := `i D` int64 | `u D` uint64 | `I W D` intW (bit pattern D) | `U W D` uintW | `f BITS` | `s HEX` | `b HEX` bytes
+           | `a HEX` bytearray | `T`/`F` | `l N v…` list | `t N v…` tuple | `d`=`f`, `S`=`Z`=`s`, `B`=`b` (the same
+             objects reached through the compiler's PyVal / py.Str) | `L N v…` / `P N v…` (py.List / py.Tuple: `buildSeq`)
+-/
+open LlgoVerif LlgoVerif.Util LlgoVerif.PyGuard
+
+def splitList (s : String) (sep : Char) : List String :=
+  if s = "-" || s = "" then [] else s.splitOn (String.singleton sep)
+
+def parseNats (s : String) : Option (List Nat) := (splitList s ',').mapM String.toNat?
+
+def parseSym (s : String) : Option Sym :=
+  match s.splitOn "." with
+  | [a, b] => do pure ((← a.toNat?), (← b.toNat?))
+  | _ => none
+
+def parseUse (s : String) : Option Use :=
+  match s.toList with
+  | 'c' :: r => (parseSym (String.ofList r)).map Use.call
+  | 'v' :: r => (parseSym (String.ofList r)).map Use.var
+  | 'e' :: r => (String.ofList r).toNat?.map Use.explicitImport
+  | _ => none
+
+def parseUses (s : String) : Option (List Use) := (splitList s ',').mapM parseUse
+
+def parsePkg (s : String) : Option Pkg :=
+  match s.splitOn "|" with
+  | [imps, b, iu, u, intr, lds] => do
+    let imports ← parseNats imps
+    let binds ← if b = "-" then some none else b.toNat?.map some
+    let initUses ← parseUses iu
+    let uses ← parseUses u
+    let loads ← (splitList lds ',').mapM parseSym
+    pure { imports, binds, initUses, uses, intrinsics := intr = "1", loads }
+  | _ => none
+
+def parseProg (s : String) : Option Prog := ((s.splitOn ";").mapM parsePkg).map ofList
+
+def parseCalls (s : String) : Option (List (Nat × Use)) :=
+  (splitList s ',').mapM fun c =>
+    match c.splitOn ":" with
+    | [p, u] => do pure ((← p.toNat?), (← parseUse u))
+    | _ => none
+
+def parseImp (s : String) : Option (Mod → Bool) :=
+  if s = "*" then some (fun _ => true) else (parseNats s).map fun l m => l.contains m
+
+def showSym (y : Sym) : String := s!"{y.1}.{y.2}"
+
+def showEv : Ev → String
+  | .pyInit => "I"
+  | .importCall p m => s!"i{p}.{m}"
+  | .explicitImport p m => s!"x{p}.{m}"
+  | .modBody m => s!"B{m}"
+  | .loadSym p y => s!"L{p}.{showSym y}"
+  | .call p y => s!"C{p}.{showSym y}"
+  | .getVar p y => s!"V{p}.{showSym y}"
+
+def showErr : Err → String
+  | .notInitialized => "err notinit"
+  | .nilModule m => s!"err nilmod {m}"
+  | .nilSym y => s!"err nilsym {showSym y}"
+
+def joinSp (l : List String) : String := if l.isEmpty then "." else " ".intercalate l
+
+/-! values -/
+
+def hexOf (bs : List UInt8) : String := hex bs
+
+partial def dump : PyObj → String
+  | .long v => s!"i{v}"
+  | .bool b => if b then "T" else "F"
+  | .float bits => s!"f{bits.toNat}"
+  | .str b => "s" ++ hexOf b
+  | .bytes b => "b" ++ hexOf b
+  | .bytearray b => "a" ++ hexOf b
+  | .list l => "l[" ++ ",".intercalate (l.map dump) ++ "]"
+  | .tuple l => "t(" ++ ",".intercalate (l.map dump) ++ ")"
+
+/-- parse one value from the token list -/
+def parseVal : Nat → List String → Option (PyObj × List String)
+  | 0, _ => none
+  | fuel+1, toks =>
+    match toks with
+    | "i" :: d :: r => d.toInt?.map fun v => (pyVal (.int 64 (BitVec.ofInt 64 v)), r)
+    | "u" :: d :: r => d.toNat?.map fun v => (pyVal (.uint 64 (BitVec.ofNat 64 v)), r)
+    | "I" :: w :: d :: r => do
+      let w ← w.toNat?; let v ← d.toNat?
+      pure (pyVal (.int w (BitVec.ofNat w v)), r)
+    | "U" :: w :: d :: r => do
+      let w ← w.toNat?; let v ← d.toNat?
+      pure (pyVal (.uint w (BitVec.ofNat w v)), r)
+    | "f" :: d :: r => d.toNat?.map fun v => (pyVal (.f64 (BitVec.ofNat 64 v)), r)
+    | "d" :: d :: r => d.toNat?.map fun v => (pyVal (.f64 (BitVec.ofNat 64 v)), r)
+    | "s" :: h :: r => (unhex h).map fun b => (pyVal (.str b), r)
+    | "S" :: h :: r => (unhex h).map fun b => (pyVal (.str b), r)
+    | "Z" :: h :: r => (unhex h).map fun b => (pyVal (.str b), r)
+    | "b" :: h :: r => (unhex h).map fun b => (pyVal (.byteArray b), r)
+    | "B" :: h :: r => (unhex h).map fun b => (pyVal (.byteArray b), r)
+    | "a" :: h :: r => (unhex h).map fun b => (pyVal (.byteSlice b), r)
+    | "T" :: r => some (pyVal (.bool true), r)
+    | "F" :: r => some (pyVal (.bool false), r)
+    | "l" :: n :: r => do
+      let n ← n.toNat?
+      let (items, r') ← parseSeq fuel n r
+      pure (.list items, r')
+    | "t" :: n :: r => do
+      let n ← n.toNat?
+      let (items, r') ← parseSeq fuel n r
+      pure (.tuple items, r')
+    | "L" :: n :: r => do
+      let n ← n.toNat?
+      let (items, r') ← parseSeq fuel n r
+      pure (.list ((buildSeq id items).filterMap id), r')
+    | "P" :: n :: r => do
+      let n ← n.toNat?
+      let (items, r') ← parseSeq fuel n r
+      pure (.tuple ((buildSeq id items).filterMap id), r')
+    | _ => none
+where
+  parseSeq (fuel : Nat) : Nat → List String → Option (List PyObj × List String)
+    | 0, r => some ([], r)
+    | n+1, r => do
+      let (v, r1) ← parseVal fuel r
+      let (vs, r2) ← parseSeq fuel n r1
+      pure (v :: vs, r2)
+
+def handle (line : String) : String :=
+  match fields line with
+  | ["guard", prog, imp, pre, order, calls] =>
+    match parseProg prog, parseImp imp, parseNats pre, parseNats order, parseCalls calls with
+    | some P, some imp, some pre, some order, some calls =>
+      match run P imp pre order calls with
+      | .ok s => "ok " ++ joinSp (s.trace.map showEv)
+      | .error e => showErr e
+    | _, _, _, _, _ => "bad-op"
+  | ["order", prog, main] =>
+    match parseProg prog, main.toNat? with
+    | some P, some m => "ok " ++ joinSp ((initOrder P m).map toString)
+    | _, _ => "bad-op"
+  | ["check", prog, imp, order, calls] =>
+    match parseProg prog, parseImp imp, parseNats order, parseCalls calls with
+    | some P, some imp, some order, some calls =>
+      let c := consistentB P [] order
+      let k := order.all (fun p => scopedPkg P p && declOnlyPkg P p && boundImportable P imp p && loadsOkPkg P p)
+      let n := needPyInit P order
+      let a := callsOk P order calls
+      s!"ok consistent={c} pkgs={k} pyinit={n} calls={a}"
+    | _, _, _, _ => "bad-op"
+  | ["call", np, va, na] =>
+    match np.toNat?, va.toNat?, na.toNat? with
+    | some np, some va, some na =>
+      match pyCall np (va != 0) 1000000 (List.range na) with
+      | none => "panic"
+      | some c =>
+        let api := match c with
+          | .noArgs _ => "noargs"
+          | .oneArg _ a => s!"onearg {a}"
+          | .objArgs _ l => "objargs " ++ joinSp (l.map fun o => match o with | some a => toString a | none => "NULL")
+        api ++ " | recv " ++ joinSp (c.received.map toString)
+    | _, _, _ => "bad-op"
+  | ["seq", n] =>
+    match n.toNat? with
+    | some n => "ok " ++ joinSp ((buildSeq id (List.range n)).map fun o => match o with | some a => toString a | none => "NULL")
+    | none => "bad-op"
+  | "val" :: toks =>
+    match parseVal (toks.length + 1) toks with
+    | some (v, []) => "ok " ++ dump v
+    | _ => "bad-op"
+  | _ => "bad-op"
+
+def main : IO Unit := lineLoop handle
